@@ -115,12 +115,11 @@ static int op_mul_ui(int argc, tok_t *a, out_t *o) {
 }
 
 /* as7_add m prec uneg uexp [u] vneg vexp [v]: m = 0 distinct, 1 r == u, 2 r == v, 3 u == v, 4 r == u == v; operands of
-   different sign are refused (mpf_add hands them to mpf_sub) */
-static int op_add(int argc, tok_t *a, out_t *o) {
+   different sign go through mpf_sub resp. mpf_add of the library; as7_sub: the same for mpf_sub */
+static int op_aors(int argc, tok_t *a, out_t *o, int sub) {
   NEED(argc == 8 && ISNUM(0) && prec_ok(&a[1]) && opnd_ok(&a[2], &a[3], &a[4]) && opnd_ok(&a[5], &a[6], &a[7]));
   long m = tok_long(&a[0]), prec = tok_long(&a[1]); NEED(m >= 0 && m <= 4);
   int un = (int) tok_long(&a[2]), vn = (int) tok_long(&a[5]);
-  if (m == 3 || m == 4) { NEED(1); } else NEED(a[4].n == 0 || a[7].n == 0 || un == vn);
   fobj r, u, v; int hr = 0, hu = 0, hv = 0;
   __mpf_struct *rp, *up, *vp;
   if (m == 0) { f_make(&r, prec, 0, 0, NULL, prec + 1); f_make(&u, 0, un, tok_long(&a[3]), &a[4], 1); f_make(&v, 0, vn, tok_long(&a[6]), &a[7], 1); hr = hu = hv = 1; rp = &r.f; up = &u.f; vp = &v.f; }
@@ -129,13 +128,16 @@ static int op_add(int argc, tok_t *a, out_t *o) {
   else if (m == 3) { f_make(&r, prec, 0, 0, NULL, prec + 1); f_make(&u, 0, un, tok_long(&a[3]), &a[4], 1); hr = hu = 1; rp = &r.f; up = vp = &u.f; }
   else { f_make(&r, prec, un, tok_long(&a[3]), &a[4], prec + 1); hr = 1; rp = up = vp = &r.f; }
   int us = hu ? u.f._mp_size : 0, vs = hv ? v.f._mp_size : 0; long ue = hu ? u.f._mp_exp : 0, ve = hv ? v.f._mp_exp : 0;
-  mpf_add(rp, up, vp);
+  if (sub) mpf_sub(rp, up, vp); else mpf_add(rp, up, vp);
   if ((hu && !f_same(&u, us, ue)) || (hv && !f_same(&v, vs, ve))) out_err(o, "opchanged"); else f_out(o, &r);
   if (hr) f_free(&r);
   if (hu) f_free(&u);
   if (hv) f_free(&v);
   return 0;
 }
+
+static int op_add(int argc, tok_t *a, out_t *o) { return op_aors(argc, a, o, 0); }
+static int op_sub(int argc, tok_t *a, out_t *o) { return op_aors(argc, a, o, 1); }
 
 /* as7_mul_2exp / as7_div_2exp m prec neg exp [u] k */
 static int op_2exp(int argc, tok_t *a, out_t *o, int div) {
@@ -161,6 +163,6 @@ static int op_div_2exp(int argc, tok_t *a, out_t *o) { return op_2exp(argc, a, o
 
 const opdef_t ops_allocsafe7[] = {
   {"as7_set", op_set}, {"as7_set_ui", op_set_ui}, {"as7_set_si", op_set_si}, {"as7_set_z", op_set_z},
-  {"as7_mul_ui", op_mul_ui}, {"as7_add", op_add}, {"as7_mul_2exp", op_mul_2exp}, {"as7_div_2exp", op_div_2exp},
+  {"as7_mul_ui", op_mul_ui}, {"as7_add", op_add}, {"as7_sub", op_sub}, {"as7_mul_2exp", op_mul_2exp}, {"as7_div_2exp", op_div_2exp},
   {0, 0}
 };
